@@ -9,6 +9,7 @@
 
 #include <Eigen/Core>
 #include "../SymEigsSolver.h"
+#include "../Util/VerifHooks.h"
 
 namespace Spectra {
 
@@ -115,6 +116,9 @@ public:
 template <typename MatrixType = Eigen::Matrix<double, Eigen::Dynamic, Eigen::Dynamic>>
 class PartialSVDSolver
 {
+#ifdef SPECTRA_VERIF
+    friend struct ::SpectraVerifAccess;
+#endif
 private:
     using Scalar = typename MatrixType::Scalar;
     using Index = Eigen::Index;
